@@ -62,6 +62,8 @@ def main(argv=None) -> int:
         from .replay import replay
         return replay(a.prop, a.replay)
     try:
+        from . import tlc
+        tlc.prune_cache()
         return dispatch(a.prop)(tier, seed)
     except SystemExit:
         raise
